@@ -114,6 +114,7 @@ impl<R: Read + Seek> ReadBox<&mut R> for Avc1Box {
                     "avc1 box contains a box with a larger size than it",
                 ));
             }
+            check_child_size(s)?;
             if name == BoxType::AvcCBox {
                 let avcc = AvcCBox::read_box(reader, s)?;
 
